@@ -43,7 +43,100 @@ def main():
             return ["ok", "written", len(pf.key_value_metadata.get("k", ""))]
         if fn == "mt_read":
             return mt_read(c, tmp)
+        if fn == "foreign_chunk":
+            return foreign_chunk(c, tmp)
+        if fn == "nonascii_text":
+            return nonascii_text(c, tmp)
         return ["unknown-fn", fn]
+
+    def foreign_chunk(c, tmp):
+        """A column chunk as OTHER writers lay it out, read through ParquetFile / read_col under the sanitised build: dictionary
+        page + data page, uncompressed; with `shape816` the chunk's total_compressed_size does not count the dictionary page
+        header (PARQUET-816: old parquet-mr); created_by as given (absent, unversioned, two-component, other writers).  The bytes
+        handed to the native decoders must cover the pages whatever created_by says.  Built from a file fastparquet writes (row
+        count a multiple of 8: the index run is whole groups, valid for every reader) by rewriting the footer."""
+        import struct
+        import pandas as pd
+        from fastparquet.cencoding import ThriftObject, NumpyIO
+        n, ncat = c["n"], c["ncat"]
+        labels = ["lab%05d" % k for k in range(ncat)]
+        codes = (np.arange(n) * 7 + 3) % ncat
+        df = pd.DataFrame({"a": pd.Categorical.from_codes(codes, labels), "b": np.arange(n, dtype="int64")})
+        fn0 = os.path.join(tmp, "own.parquet")
+        from fastparquet import writer as _w
+        dpv0 = _w.DATAPAGE_VERSION
+        _w.DATAPAGE_VERSION = c.get("dpv", 1)
+        try:
+            fastparquet.write(fn0, df[["a"]] if c.get("single", True) else df,
+                              row_group_offsets=c.get("rg_rows") or n)
+        finally:
+            _w.DATAPAGE_VERSION = dpv0
+        pf = fastparquet.ParquetFile(fn0)
+        raw = open(fn0, "rb").read()
+        flen = struct.unpack("<I", raw[-8:-4])[0]
+        fstart = len(raw) - 8 - flen
+        fmd = pf.fmd
+        for rg in fmd.row_groups:
+            md = rg.columns[0].meta_data
+            off = md.dictionary_page_offset
+            io_ = NumpyIO(np.frombuffer(raw[off:off + 400], dtype=np.uint8).copy())
+            ThriftObject.from_buffer(io_, "PageHeader")
+            if c["shape816"]:
+                md.total_compressed_size -= io_.tell()
+        fmd.created_by = c["created_by"]
+        if c["created_by"] is None or "fastparquet" not in c["created_by"]:
+            fmd.key_value_metadata = None              # (no pandas metadata in a foreign file)
+        foot = bytes(fmd.to_bytes())
+        fn = os.path.join(tmp, "foreign.parquet")
+        with open(fn, "wb") as f:
+            f.write(raw[:fstart] + foot + struct.pack("<I", len(foot)) + b"PAR1")
+        out = fastparquet.ParquetFile(fn).to_pandas()
+        got = np.asarray(out["a"].astype(object))
+        want = np.asarray(labels, dtype=object)[codes]
+        if len(got) != n or not (got == want).all():
+            return ["ok", "bad-reads", "%d of %d labels differ from the file's content" % (int((got != want).sum()) if len(got) == n else -1, n)]
+        return ["ok", "clean", "%d rows" % n]
+
+    def nonascii_text(c, tmp):
+        """Long NON-ASCII text (3 bytes per character in UTF-8) entering the footer through one API path: DataFrame.attrs, column
+        names, categorical labels / string statistics, custom_metadata (str or bytes values).  The footer serialiser sizes its
+        buffer from character counts: every path must either produce the file (read back equal) or raise - never write outside."""
+        import pandas as pd
+        ch = "\u6f22\u5b57\u30c6\u30b9\u30c8"          # CJK / kana: 3 bytes each in UTF-8
+        text = (ch * (c["chars"] // len(ch) + 1))[:c["chars"]]
+        df = pd.DataFrame({"x": np.arange(6, dtype="int64"), "s": ["a", "b", "c", "a", "b", "c"]})
+        kw = {}
+        path = c["path"]
+        if path == "attrs":
+            df.attrs = {"note": text, "k": 1}
+        elif path == "column_name":
+            df = df.rename(columns={"s": text})
+        elif path == "cat_labels":
+            df["s"] = pd.Categorical.from_codes([0, 1, 2, 0, 1, 2], categories=[text + "0", text + "1", "z" + text])
+        elif path == "string_values":
+            df["s"] = [text + str(i) for i in range(6)]
+        elif path == "custom_metadata_str":
+            kw["custom_metadata"] = {"k": text}
+        elif path == "custom_metadata_bytes":
+            kw["custom_metadata"] = {"k": text.encode("utf-8")}
+        else:
+            return ["unknown-path", path]
+        fnm = os.path.join(tmp, "t.parquet")
+        try:
+            fastparquet.write(fnm, df, **kw)
+        except Exception as e:       # noqa
+            return ["ok", "write-raised", "%s: %s" % (type(e).__name__, str(e)[:100])]     # allowed: a Python exception
+        pf = fastparquet.ParquetFile(fnm)
+        out = pf.to_pandas()
+        ok = list(out.columns) == list(df.columns) and len(out) == 6
+        if path == "attrs":
+            ok = ok and out.attrs.get("note") == text
+        if path in ("cat_labels", "string_values"):
+            ok = ok and list(out["s"].astype(object)) == list(df["s"].astype(object))
+        if path.startswith("custom_metadata"):
+            got = pf.key_value_metadata.get("k")
+            ok = ok and (got == text or got == text.encode("utf-8"))
+        return ["ok", "clean" if ok else "bad-reads", "%s with %d non-ASCII characters" % (path, c["chars"])]
 
     def mt_read(c, tmp):
         """Concurrent well-formed use: ONE ParquetFile handle, several threads, each reading its own column(s) over and
